@@ -302,6 +302,8 @@ def r_misc(ctx, toks):
             out.append(Tok('id', 'DBL_EPSILON', toks[i].ws)); i += 8; fire(ctx, 'dbl-epsilon'); continue
         if seq_at(toks, i, ['numeric_limits', '<', 'double', '>', '::', 'max', '(', ')']):
             out.append(Tok('id', 'DBL_MAX', toks[i].ws)); i += 8; fire(ctx, 'dbl-max'); continue
+        if seq_at(toks, i, ['numeric_limits', '<', 'ndsize_t', '>', '::', 'max', '(', ')']):
+            out.append(Tok('id', 'ULLONG_MAX', toks[i].ws)); i += 8; fire(ctx, 'ndsize-max'); continue
         if seq_at(toks, i, ['numeric_limits', '<', 'size_t', '>', '::', 'max', '(', ')']):
             out.append(Tok('id', 'SIZE_MAX', toks[i].ws)); i += 8; fire(ctx, 'size-max'); continue
         if toks[i].t == 'nullptr':
